@@ -27,7 +27,9 @@ def regenerate(repo, gen_dir):
     content = "/-! Regenerated from /repo by tools/gen_from_source.py on every run. Do not edit. -/\n\nnamespace Crusta.Gen\n\n/-- `DEFENDER_SETS_PROD_THRESHOLD` in `encodings/hybrid_complete_constraints_encoder.rs` -/\ndef hybridThreshold : Nat := %d\n\nend Crusta.Gen\n" % thr
     ch = write_if_changed(os.path.join(gen_dir, "Constants.lean"), content)
     ch2 = gen_unicode(repo, gen_dir)
-    return ch or ch2
+    ch3 = gen_apx_patterns(repo, gen_dir)
+    ch4 = gen_problem_grammar(repo, gen_dir)
+    return ch or ch2 or ch3 or ch4
 
 
 def parse_char(tok):
@@ -79,3 +81,201 @@ def gen_unicode(repo, gen_dir):
                "/-- `\\d` of the regex crate = Unicode Decimal_Number -/\n"
                "def decimalRanges : List (Nat × Nat) := %s\n\nend Crusta.Gen\n") % (ver, fmt(ws), fmt(dn))
     return write_if_changed(os.path.join(gen_dir, "Unicode.lean"), content)
+
+
+# ----------------------------------------------------------------------------- regex translator (Aspartix reader)
+
+class RxParseError(Exception):
+    pass
+
+
+def parse_regex(pat):
+    """Translates the subset of regex syntax used by src/io/aspartix_reader.rs into the Lean AST of Crusta.Rx.
+    The pattern must be anchored (^ ... $); anything outside the subset raises (the tie is then broken)."""
+    if not (pat.startswith("^") and pat.endswith("$")):
+        raise RxParseError("pattern is not anchored at both ends: %r" % pat)
+    body = pat[1:-1]
+    pos = 0
+
+    def atom_of_escape(c):
+        if c == "s":
+            return "Atom.ws"
+        if c == "d":
+            return "Atom.digit"
+        if c in "()[].,\\-^$*+?{}|":
+            return "Atom.ch %d" % ord(c)
+        raise RxParseError("unsupported escape \\%s in %r" % (c, pat))
+
+    def parse_class():
+        nonlocal pos
+        # after '['
+        neg = False
+        if body[pos] == "^":
+            neg = True
+            pos += 1
+        items = []
+        first = True
+        while True:
+            if pos >= len(body):
+                raise RxParseError("unterminated bracket in %r" % pat)
+            c = body[pos]
+            if c == "]" and not first:
+                pos += 1
+                break
+            first = False
+            if body.startswith("[:alpha:]", pos):
+                items.append("Atom.alpha")
+                pos += len("[:alpha:]")
+            elif c == "[":
+                raise RxParseError("unsupported nested bracket in %r" % pat)
+            elif c == "\\":
+                items.append(atom_of_escape(body[pos + 1]))
+                pos += 2
+            elif c == "-" and body[pos + 1] != "]":
+                raise RxParseError("ranges are not supported in %r" % pat)
+            else:
+                items.append("Atom.ch %d" % ord(c))
+                pos += 1
+        return ".cls %s [%s]" % ("true" if neg else "false", ", ".join(items))
+
+    def parse_seq(depth):
+        nonlocal pos
+        parts = []
+        while pos < len(body):
+            c = body[pos]
+            if c == ")":
+                if depth == 0:
+                    raise RxParseError("unbalanced ) in %r" % pat)
+                break
+            if c == "(":
+                if body.startswith("(?", pos):
+                    raise RxParseError("non-capturing / flag groups are not supported in %r" % pat)
+                pos += 1
+                inner = parse_seq(depth + 1)
+                if pos >= len(body) or body[pos] != ")":
+                    raise RxParseError("unbalanced ( in %r" % pat)
+                pos += 1
+                cur = ".grp (%s)" % inner
+            elif c == "[":
+                pos += 1
+                cur = parse_class()
+            elif c == "\\":
+                a = atom_of_escape(body[pos + 1])
+                pos += 2
+                cur = (".chr %s" % a.split(" ")[1]) if a.startswith("Atom.ch") else (".cls false [%s]" % a)
+            elif c == ".":
+                pos += 1
+                cur = ".anyNoNl"
+            elif c in "*+?{}|^$":
+                raise RxParseError("unsupported operator %r at %d in %r" % (c, pos, pat))
+            else:
+                pos += 1
+                cur = ".chr %d" % ord(c)
+            if pos < len(body) and body[pos] in "*+":
+                op = body[pos]
+                pos += 1
+                if pos < len(body) and body[pos] in "?+*":
+                    raise RxParseError("lazy / possessive / stacked quantifiers are not supported in %r" % pat)
+                cur = ".%s (%s)" % ("star" if op == "*" else "plus", cur)
+            parts.append(cur)
+        if not parts:
+            return ".eps"
+        out = parts[-1]
+        for p_ in reversed(parts[:-1]):
+            out = ".cat (%s) (%s)" % (p_, out)
+        return out
+
+    r = parse_seq(0)
+    if pos != len(body):
+        raise RxParseError("trailing input in %r" % pat)
+    return r
+
+
+def gen_apx_patterns(repo, gen_dir):
+    src = open(os.path.join(repo, "src/io/aspartix_reader.rs")).read()
+    consts = dict(re.findall(r'const (\w+): &str = r"([^"]*)";', src))
+    pats = {}
+    for name, body in re.findall(r'static ref (\w+): Regex\s*=\s*Regex::new\((.*?)\)\s*\.unwrap\(\);', src, re.S):
+        body = body.strip()
+        m = re.fullmatch(r'r"([^"]*)"', body)
+        if m:
+            pats[name] = m.group(1)
+            continue
+        m = re.fullmatch(r'&format!\(\s*r"([^"]*)"\s*,\s*(.*?),?\s*\)', body, re.S)
+        if not m:
+            raise RuntimeError("cannot read the definition of %s in aspartix_reader.rs" % name)
+        fmt = m.group(1)
+        args = [a.strip() for a in m.group(2).split(",") if a.strip()]
+        for a in args:
+            if a not in consts:
+                raise RuntimeError("unknown constant %s in the definition of %s" % (a, name))
+            if "{}" not in fmt:
+                raise RuntimeError("more arguments than placeholders in %s" % name)
+            fmt = fmt.replace("{}", consts[a], 1)
+        if "{}" in fmt:
+            raise RuntimeError("more placeholders than arguments in %s" % name)
+        pats[name] = fmt
+    want = {"ARG_LINE_PATTERN": "argLine", "ARG_LINE_ARG_NAME_PATTERN": "argLineName",
+            "ATT_LINE_PATTERN": "attLine", "ATT_LINE_ARG_NAMES_PATTERN": "attLineNames"}
+    if set(pats) != set(want):
+        raise RuntimeError("the set of patterns of aspartix_reader.rs changed: %s" % sorted(pats))
+    out = ["import Crusta.Model.Rx\n",
+           "/-! Regenerated from /repo/src/io/aspartix_reader.rs by tools/gen_from_source.py on every run (the four regular\n"
+           "expressions, `format!` placeholders expanded, translated into the AST of `Crusta.Rx`). Do not edit. -/\n",
+           "namespace Crusta.Gen\nopen Crusta.Rx\n"]
+    for k in ("ARG_LINE_PATTERN", "ARG_LINE_ARG_NAME_PATTERN", "ATT_LINE_PATTERN", "ATT_LINE_ARG_NAMES_PATTERN"):
+        out.append("/-- `%s` = `%s` -/\ndef %s : Rx :=\n  %s\n" % (k, pats[k].replace("-/", "- /"), want[k], parse_regex(pats[k])))
+    out.append("end Crusta.Gen\n")
+    return write_if_changed(os.path.join(gen_dir, "ApxPatterns.lean"), "\n".join(out))
+
+
+# ----------------------------------------------------------------------------- problem grammar (aa/problem.rs)
+
+def gen_problem_grammar(repo, gen_dir):
+    """the enum variants (in declaration order = the order of `--problems`) and the match arms of the two `TryFrom<&str>`
+    implementations, as data: Props/C05 proves that the Lean grammar is exactly this table"""
+    src = open(os.path.join(repo, "src/aa/problem.rs")).read()
+
+    def variants(name):
+        m = re.search(r"pub enum %s \{(.*?)\n\}" % name, src, re.S)
+        if not m:
+            raise RuntimeError("enum %s not found in aa/problem.rs" % name)
+        body = re.sub(r"///[^\n]*", "", m.group(1))
+        vs = [v.strip() for v in body.split(",") if v.strip()]
+        if not vs or not all(re.fullmatch(r"[A-Z]+", v) for v in vs):
+            raise RuntimeError("unexpected variants of %s: %r" % (name, vs))
+        return vs
+
+    def arms(name):
+        m = re.search(r"impl TryFrom<&str> for %s \{(.*?)\n\}" % name, src, re.S)
+        if not m:
+            raise RuntimeError("TryFrom<&str> for %s not found" % name)
+        body = m.group(1)
+        if "to_ascii_lowercase()" not in body:
+            raise RuntimeError("%s::try_from no longer compares the ASCII-lowercased string" % name)
+        out = re.findall(r'"([^"]*)"\s*=>\s*Ok\(%s::(\w+)\)' % name, body)
+        other = re.findall(r"\n\s*([^\s\"_][^\n]*?)\s*=>", body)
+        if not out or other:
+            raise RuntimeError("unexpected match arms in %s::try_from: %r" % (name, other))
+        return out
+    if "problem.find('-')" not in src:
+        raise RuntimeError("read_problem_string no longer splits at the first hyphen")
+
+    def codes(t):
+        return "[" + ", ".join(str(ord(c)) for c in t) + "]"
+
+    def table(rows):
+        return "[" + ", ".join('(%s, "%s")' % (codes(k), v) for k, v in rows) + "]"
+    content = ("/-! Regenerated from /repo/src/aa/problem.rs by tools/gen_from_source.py on every run. Do not edit. -/\n\n"
+               "namespace Crusta.Gen\n\n"
+               "/-- variants of `enum Semantics`, in declaration order -/\n"
+               "def semanticsVariants : List String := [%s]\n\n"
+               "/-- variants of `enum Query`, in declaration order -/\n"
+               "def queryVariants : List String := [%s]\n\n"
+               "/-- match arms of `Semantics::try_from` (the ASCII-lowercased string, as code points, and the variant) -/\n"
+               "def semanticsArms : List (List Nat × String) := %s\n\n"
+               "/-- match arms of `Query::try_from` -/\n"
+               "def queryArms : List (List Nat × String) := %s\n\nend Crusta.Gen\n") % (
+        ", ".join('"%s"' % v for v in variants("Semantics")), ", ".join('"%s"' % v for v in variants("Query")),
+        table(arms("Semantics")), table(arms("Query")))
+    return write_if_changed(os.path.join(gen_dir, "Problem.lean"), content)
